@@ -52,12 +52,13 @@ def parseCall : List String → Option WOp
   | ["uu", i, n] => do some (.uu (← parseID i) (← parseOptName n))
   | ["du", i] => do some (.du (← parseID i))
   | ["pu", i] => do some (.pu (← parseID i))
-  | ["ga", i] => do some (.ga (← parseID i))
-  | ["ft", t] => do some (.ft (← parseTok t))
-  | ["la"] => some .la
+  | ["ga", i] | ["ga2", i] => do some (.ga (← parseID i))
+  | ["ft", t] | ["ft2", t] => do some (.ft (← parseTok t))
+  | ["la"] | ["la2"] => some .la
   | ["ca", o, u, t, a, p] => do some (.ca (← parseAuthRec o u t a p))
-  | ["ua", i, a] => do some (.ua (← parseID i) (← parseFlag a "a" "i"))
-  | ["da", i] => do some (.da (← parseID i))
+  | ["ca2", o, u, t, a, p] => do some (.ca2 (← parseAuthRec o u t a p))
+  | ["ua", i, a] | ["ua2", i, a] => do some (.ua (← parseID i) (← parseFlag a "a" "i"))
+  | ["da", i] | ["da2", i] => do some (.da (← parseID i))
   | _ => none
 
 def parseOp : List String → Option Op
@@ -168,7 +169,7 @@ def callTag : WOp → String
   | .gb _ => "gb" | .fb .. => "fb" | .fB .. => "fB" | .lb _ => "lb" | .cb .. => "cb" | .ub .. => "ub" | .db _ => "db"
   | .gO _ => "go" | .fo _ => "fo" | .lo => "lo" | .co _ => "co" | .uo .. => "uo" | .dO _ => "do"
   | .gu _ => "gu" | .fu _ => "fu" | .lu => "lu" | .cu .. => "cu" | .uu .. => "uu" | .du _ => "du" | .pu _ => "pu"
-  | .ga _ => "ga" | .ft _ => "ft" | .la => "la" | .ca _ => "ca" | .ua .. => "ua" | .da _ => "da"
+  | .ga _ => "ga" | .ft _ => "ft" | .la => "la" | .ca _ => "ca" | .ua .. => "ua" | .da _ => "da" | .ca2 _ => "ca2"
 
 def ansTag : Ans → String
   | .err e _ => errStr e
